@@ -17,6 +17,9 @@ type Tape struct {
 	fixed  bool
 	pos    int
 	rec    []uint32
+	// OnOverrun is called when a replayed tape is read far beyond its end
+	// (a harness loop that only terminates on non-zero draws).
+	OnOverrun func()
 }
 
 // NewTape returns a generating tape.
@@ -51,6 +54,8 @@ func (t *Tape) next() uint32 {
 	if t.fixed {
 		if t.pos < len(t.replay) {
 			v = t.replay[t.pos]
+		} else if t.pos > len(t.replay)+2000000 && t.OnOverrun != nil {
+			t.OnOverrun()
 		}
 	} else {
 		t.state += 0x9e3779b97f4a7c15
